@@ -30,6 +30,8 @@ def cmd_run(argv):
     key = core.REGISTRY[prop]
     emit({"hello": {"prop": prop, "seed": seed, "tier": tier, "start": start, "count": count,
                     "hashseed": os.environ.get("PYTHONHASHSEED"), "pid_free": True}})
+    n_bad = 0
+    max_bad = int(os.environ.get("VERIF_MAX_BAD_PER_BLOCK", "12"))
     for r in range(start, start + count):
         rng = core.run_rng(seed, key, r)
         try:
@@ -46,6 +48,12 @@ def cmd_run(argv):
         if out.violations or (sample_every and r % sample_every == 0):
             rec["case"] = case
         emit(rec)
+        if out.violations:
+            n_bad += 1
+            if n_bad >= max_bad:
+                # a tree this broken needs no further exploration in this block (and hangs would only burn the time budget)
+                emit({"stopped_early": r})
+                break
     emit({"done": True})
 
 
